@@ -11,13 +11,22 @@ case $CFG in
   cranelift) FLAGS="--features cranelift";;
   *) echo "bad config"; exit 2;;
 esac
+# One warm target directory per configuration under /verif/.cache (dependencies are compiled once);
+# cargo's freshness cache would skip the driver on a warm directory, so the workspace member's
+# fingerprints are removed first and the run is serialised with a lock.  The fact file must exist after.
+TD=$HERE/../.cache/target/$CFG
+mkdir -p "$TD"
 T=$(mktemp -d "${TMPDIR:-/tmp}/factgen.XXXXXX")
 trap 'rm -rf "$T"' EXIT
 cd "$REPO"
 rm -f "$OUT"
+(
+flock 9
+rm -rf "$TD"/debug/.fingerprint/rbpf-* "$TD"/debug/deps/librbpf-* "$TD"/debug/deps/rbpf-*
 LD_LIBRARY_PATH=$(rustc +nightly --print sysroot)/lib \
 RUSTFLAGS="-Zmir-opt-level=0 -Awarnings" \
 RUSTC_WORKSPACE_WRAPPER=$DRV FACTGEN_OUT=$OUT FACTGEN_CONFIG=$CFG \
-CARGO_NET_OFFLINE=true CARGO_TARGET_DIR=$T/t \
+CARGO_NET_OFFLINE=true CARGO_TARGET_DIR=$TD \
 cargo +nightly check --offline --lib $FLAGS >$T/log 2>&1 || { cat $T/log | tail -40; exit 3; }
+) 9>"$TD/.lock" || exit 3
 [ -s "$OUT" ] || { echo "factgen produced no fact file"; tail -20 $T/log; exit 3; }
